@@ -1110,7 +1110,7 @@ def describe(case):
 def replay(ctx, v):
     core.setup_impl()
     why = describe(v["case"])
-    return Violation(ID, v["kind"], v["case"], why) if why else None
+    return Violation(ID, v["kind"], v["case"], why, key=v.get("key")) if why else None
 
 
 def load_corpus():
@@ -1127,8 +1127,19 @@ def search(ctx, suspects, budget):
     t0 = time.time()
     rng = ctx.rng
     out, n, seen = [], 0, set()
-    todo = [s["case"] for s in suspects if s.get("case")] + [c["case"] for c in load_corpus()]
-    while len(out) < 3:
+    # the corpus always runs; an entry with a "key" is a recorded finding: it is reported under that stable key
+    # (so that known_findings.json can list it), exactly as recorded (not shrunk), and only while it still fails
+    for c in load_corpus():
+        n += 1
+        why = describe(c["case"])
+        if why and not why.startswith("harness error"):
+            v = Violation(ID, c.get("kind", "script"), c["case"], why, key=c.get("key"))
+            if v.key not in seen:
+                seen.add(v.key)
+                out.append(v)
+    n_known = len(out)
+    todo = [s["case"] for s in suspects if s.get("case")]
+    while len(out) - n_known < 3:
         if todo:
             case = todo.pop(0)
         elif time.time() - t0 > budget:
@@ -1356,6 +1367,8 @@ def correspondence(ctx):
     n_sets = ctx.n(12, 110)
     cases = []          # (script, order, tag)
     for c in load_corpus():
+        if c.get("use") == "oracle":      # recorded findings are replayed by the oracle only
+            continue
         cases.append((c["case"]["script"], c["case"].get("order") or list(range(len(c["case"]["script"]["objects"]))), "corpus"))
     for _ in range(n_scripts):
         s = gen_script(rng)
